@@ -49,9 +49,34 @@ def opcode_keys():
     return out
 
 
+def variant(rng, j, expanded):
+    """Interpreter states the seeded generator keeps fixed: an active single-instruction repeat, an
+    active block repeat whose end is at / next to the instruction, enabled interrupts with pending bits.
+    Variant 0 is the plain seeded state; others are chosen at random."""
+    if j == 0 or rng.chance(1, 2):
+        return []
+    m = rng.below(4)
+    if m == 0:      # inside a `rep`
+        return ["interp poke rep 1", "interp poke repc %x" % rng.choice([0, 0, 1, 2, 0xFFFF])]
+    if m == 1:      # inside 1..4 nested block repeats; frame end at the instruction, its second word, or elsewhere
+        pc = rng.choice([0x100, 0x3FF0, 0x10000 + rng.below(0x1000), 0x2FFFE])
+        k = 1 + rng.below(4)
+        end = pc + rng.choice([0, 0, 1, 1, 2, 0x55])
+        return ["interp poke pc %x" % pc, "interp poke lp 1", "interp poke bcn %x" % k,
+                "interp poke bk_end%d %x" % (k - 1, end), "interp poke bk_lc%d %x" % (k - 1, rng.choice([0, 0, 1, 7])),
+                "interp poke bk_start%d %x" % (k - 1, rng.choice([pc, 0x200, 0x3FFFF]))]
+    if m == 2:      # interrupts enabled, some line pending and unmasked
+        i = rng.below(3)
+        return ["interp poke ie 1", "interp poke im%d 1" % i, "interp poke ip%d %x" % (i, rng.below(2)),
+                "interp poke ipv %x" % rng.below(2), "interp poke imv %x" % rng.below(2)]
+    # rep and interrupts together (interrupts are held off during a repeat)
+    return ["interp poke rep 1", "interp poke repc %x" % rng.below(3), "interp poke ie 1", "interp poke im0 1",
+            "interp poke ip0 1"]
+
+
 def explore(rng, tier, replay=None):
     only = os.environ.get("VERIF_ONLY")
-    nstates = int(os.environ.get("VERIF_STATES", "2" if tier == "quick" else "32"))
+    nstates = int(os.environ.get("VERIF_STATES", "3" if tier == "quick" else "32"))
     info = gen_dispatch.main(vlib.REPO, vlib.LEAN)
     missing = set(info["missing"])
     keys = opcode_keys()
@@ -64,18 +89,19 @@ def explore(rng, tier, replay=None):
             continue
         if only and not any(k.startswith(o) for o in only.split(",")):
             continue
-        for _ in range(nstates):
+        for j in range(nstates):
             seed = rng.bits(40)
             e = rng.biased(16)
-            scripts.append(["interp gen %x" % seed, "interp step %x %x" % (w, e)])
+            scripts.append(["interp gen %x" % seed] + variant(rng, j, x) + ["interp step %x %x" % (w, e)])
 
     def signature(script, impl):
-        w = int(script[1].split()[2], 16)
-        return [(keys[w][0], impl[1].split(" ")[0] if len(impl) > 1 else "?")]
+        w = int(script[-1].split()[2], 16)
+        var = script[1].split()[2] if len(script) > 2 else "plain"
+        return [(keys[w][0], var, impl[-1].split(" ")[0] if impl else "?")]
 
     def judge(pair, script, impl, model):
         # verbose re-run to name the differing fields
-        s2 = [script[0], script[1].replace("interp step", "interp stepv")]
+        s2 = script[:-1] + [script[-1].replace("interp step", "interp stepv")]
         a, b, _, _ = pair.run([s2], shards=1)
         why = field_diff(a[0][-1], b[0][-1])
         return True, "(the implementation's result differs from the reference model: %s)" % why
@@ -87,6 +113,46 @@ def explore(rng, tier, replay=None):
                        extra={"unmodelled": sorted(missing), "modelled_handlers": info["modelled"],
                               "handlers": info["handlers"]})
     return ctx
+
+
+def fetch_slice(rng, tier):
+    """Fetch-loop slice used by C02: every two-word opcode (and a sample of one-word ones) from a plain
+    state, inside a `rep` (count 0 and > 0) and at / next to the end of a block repeat; harness and model
+    are compared on all registers (pc!) and on the ordered list of program words fetched."""
+    info = gen_dispatch.main(vlib.REPO, vlib.LEAN)
+    missing = set(info["missing"])
+    keys = opcode_keys()
+    scripts = []
+    for w in range(65536):
+        if keys[w] is None:
+            continue
+        k, x = keys[w]
+        if k in missing:
+            continue
+        if not x and rng.below(16 if tier == "quick" else 2):
+            continue
+        e = rng.biased(16)
+        pc = rng.choice([0x100, 0x3FF0, 0x12345, 0x2FFFE])
+        var = [[], ["interp poke rep 1", "interp poke repc 0"], ["interp poke rep 1", "interp poke repc 2"],
+               ["interp poke pc %x" % pc, "interp poke lp 1", "interp poke bcn 1", "interp poke bk_end0 %x" % pc,
+                "interp poke bk_lc0 1", "interp poke bk_start0 200"],
+               ["interp poke pc %x" % pc, "interp poke lp 1", "interp poke bcn 1", "interp poke bk_end0 %x" % (pc + 1),
+                "interp poke bk_lc0 0", "interp poke bk_start0 200"]]
+        for v in (var if x else [rng.choice(var)]):
+            scripts.append(["interp gen %x" % rng.bits(40)] + v + ["interp step %x %x" % (w, e)])
+    pair = vlib.Pair("plain")
+    bad, a, b, crashes = pair.diff(scripts, model_first=True)
+    violations = []
+    for (i, kk, ia, mb) in bad[:3]:
+        s2 = scripts[i][:-1] + [scripts[i][-1].replace("interp step", "interp stepv")]
+        ra, rb, _, _ = pair.run([s2], shards=1)
+        why = field_diff(ra[0][-1], rb[0][-1])
+        violations.append(("fetch loop: interpreter and reference model disagree after `%s` (%s): %s"
+                           % (scripts[i][-1], " ; ".join(scripts[i][1:-1]) or "plain state", why),
+                           {"kind": "correspondence", "script": scripts[i], "impl": a[i], "model": b[i],
+                            "correspondence": "C02/fetch"}, True))
+    return violations, {"fetch_cases": len(scripts), "fetch_disagreements": len(bad),
+                        "fetch_skipped_by_model": getattr(pair, "skipped", 0)}
 
 
 def field_diff(a, b):
